@@ -39,11 +39,18 @@ E(n) ==
        \* comparison chain: two operators, three operands (its own family)
        \cup (IF n >= 2 THEN {[k |-> "chain", op1 |-> o1, op2 |-> o2, a |-> Leaf, b |-> Leaf, c |-> Leaf] : o1 \in {"<", "=="}, o2 \in {"<=", "!="}} ELSE {})
 
-\* leaves named in text order
-Names == <<"a", "b", "c", "d", "e", "f", "g", "h">>
+\* leaves in text order cycle through a pool of spellings: names that begin with a keyword or a literal, literals of
+\* every terminal class (several digits, decimals, both quote kinds with escapes), the three constants
+V(n) == [k |-> "var", name |-> n]
+I(t, v) == [k |-> "int", text |-> t, v |-> v]
+F(t) == [k |-> "float", text |-> t]
+S(t, v) == [k |-> "str", text |-> t, s |-> v]
+C(t) == [k |-> "const", text |-> t]
+LeafPool == << V("a"), V("b"), I("1", 1), V("c"), S("'s'", "s"), V("Truex"), F("1.5"), V("notx"), I("10", 10), C("True"),
+               V("in_1"), S("\"d\"", "d"), V("Nonesuch"), F("0.25"), V("isx"), I("0", 0), C("None"), V("orb"), S("'a\\'b'", "a'b"), V("andy"),
+               F("10.0"), V("iffy"), I("207", 207), C("False"), V("lambda_"), S("\"q\\\"r\"", "q\"r"), V("_u"), S("''", ""), V("elsex"), V("x1") >>
 RECURSIVE Label(_, _)
-\* returns [e, n]; leaf becomes var / int alternately (every third leaf the literal 1, every fifth a string)
-LeafNode(i) == IF i % 5 = 4 THEN [k |-> "str", s |-> "s"] ELSE IF i % 3 = 2 THEN [k |-> "int", v |-> 1] ELSE [k |-> "var", name |-> Names[(i % 8) + 1]]
+LeafNode(i) == LeafPool[(i % Len(LeafPool)) + 1]
 Label(x, i) ==
   CASE x.k = "leaf" -> [e |-> LeafNode(i), n |-> i + 1]
     [] x.k \in {"bool", "cmp", "bin", "list2", "tuple2"} ->
@@ -52,9 +59,11 @@ Label(x, i) ==
          (LET X == Label(x.e, i) IN [e |-> [x EXCEPT !.e = X.e], n |-> X.n])
     [] x.k \in {"call1", "callkw", "callstar", "index"} ->
          (LET X == Label(x.e, i)  A == Label(x.a, X.n) IN [e |-> [x EXCEPT !.e = X.e, !.a = A.e], n |-> A.n])
-    [] x.k = "tern" -> (LET A == Label(x.a, i)  C == Label(x.c, A.n)  B == Label(x.b, C.n) IN [e |-> [x EXCEPT !.a = A.e, !.c = C.e, !.b = B.e], n |-> B.n])
-    [] x.k = "chain" -> (LET A == Label(x.a, i)  B == Label(x.b, A.n)  C == Label(x.c, B.n) IN [e |-> [x EXCEPT !.a = A.e, !.b = B.e, !.c = C.e], n |-> C.n])
-Exprs == {Label(s, 0).e : s \in E(N)}
+    [] x.k = "tern" -> (LET A == Label(x.a, i)  C1 == Label(x.c, A.n)  B == Label(x.b, C1.n) IN [e |-> [x EXCEPT !.a = A.e, !.c = C1.e, !.b = B.e], n |-> B.n])
+    [] x.k = "chain" -> (LET A == Label(x.a, i)  B == Label(x.b, A.n)  C1 == Label(x.c, B.n) IN [e |-> [x EXCEPT !.a = A.e, !.b = B.e, !.c = C1.e], n |-> C1.n])
+CONSTANTS Offsets          \* the pool position of the first leaf; every offset gives the whole universe again
+ExprsFrom(off) == {Label(s, off).e : s \in E(N)}
+Exprs == ExprsFrom(0)
 
 \* levels of py_gram's ladder
 Prec(x) == CASE x.k = "lambda" -> 1 [] x.k = "tern" -> 2
@@ -69,7 +78,7 @@ P(x, need) == IF Prec(x) < need THEN "(" \o Text(x) \o ")" ELSE Text(x)
 Postfixable(x) == x.k \in {"var", "attr", "call0", "call1", "callkw", "callstar", "index"}
 Q(x) == IF Postfixable(x) THEN Text(x) ELSE "(" \o Text(x) \o ")"
 Text(x) ==
-  CASE x.k = "var" -> x.name [] x.k = "int" -> ToString(x.v) [] x.k = "str" -> "'" \o x.s \o "'"
+  CASE x.k = "var" -> x.name [] x.k \in {"int", "float", "str", "const"} -> x.text
     [] x.k = "bool" -> P(x.l, Prec(x)) \o " " \o x.op \o " " \o P(x.r, Prec(x) + 1)
     [] x.k = "not" -> "not " \o P(x.e, 6)
     [] x.k = "cmp" -> P(x.l, 11) \o " " \o x.op \o " " \o P(x.r, 11)
@@ -94,6 +103,7 @@ Text(x) ==
 RECURSIVE Canon(_)
 Canon(x) ==
   CASE x.k = "var" -> <<"var", x.name>> [] x.k = "int" -> <<"int", x.v>> [] x.k = "str" -> <<"str", x.s>>
+    [] x.k = "float" -> <<"float", x.text>> [] x.k = "const" -> <<"const", x.text>>
     [] x.k \in {"bool", "cmp", "bin"} -> <<x.k, x.op, Canon(x.l), Canon(x.r)>>
     [] x.k = "chain" -> <<"chain", <<x.op1, x.op2>>, <<Canon(x.a), Canon(x.b), Canon(x.c)>>>>
     [] x.k = "not" -> <<"not", Canon(x.e)>>
@@ -112,5 +122,5 @@ Canon(x) ==
     [] x.k = "lambda" -> <<"lambda", <<"p">>, Canon(x.e)>>
     [] x.k = "walrus" -> <<"walrus", "w", Canon(x.e)>>
 
-Emit == \A x \in Exprs : PrintT("CASE " \o ToJson([text |-> Text(x), canon |-> Canon(x), top |-> x.k]))
+Emit == \A off \in Offsets : \A x \in ExprsFrom(off) : PrintT("CASE " \o ToJson([text |-> Text(x), canon |-> Canon(x), top |-> x.k, off |-> off]))
 =============================================================================
